@@ -73,7 +73,7 @@ Definition snap (s : st) : word :=
                    obs [conn WU; stream error 0/1; stream WU] ++ snapshot
    [2; n]          Stream.read(n)'s requestRead(n) = adjustWindow     obs [stream WU] ++ snapshot
    [3; k]          transportReader's updateWindow(k) after k bytes were read  obs [stream WU] ++ snapshot
-   [4; n]          bdpEstimator -> updateFlowControl(n)              obs [conn WU; SETTINGS value] ++ snapshot
+   [4; n]          bdpEstimator -> updateFlowControl(n)              obs [conn WU; number of conn WU items; SETTINGS value] ++ snapshot
    [5]             BDP ping: trInFlow.reset()                        obs [conn WU] ++ snapshot
    an op [1; size; pad] with pad > size or size >= 2^24 is not a frame and is skipped:
    obs [-1] ++ snapshot *)
@@ -110,7 +110,7 @@ Definition stepk (s : st) (k : opk) : word * st :=
   | ONew n0 =>
     let n := u32 n0 in
     let s1 := if dead s then s else in_newLimit n s in
-    let (cwu, s2) := tr_newLimit n s1 in ([cwu; n] ++ snap s2, s2)
+    let (cwu, s2) := tr_newLimit n s1 in ([cwu; 1; n] ++ snap s2, s2)
   | OPing =>
     let (cwu, s1) := tr_reset s in ([cwu] ++ snap s1, s1)
   end.
@@ -148,9 +148,14 @@ Definition run (cfg : word) (ops : list word) : option (list word) :=
            outstanding read request
    ldead : a stream error was observed
    adjusted : the outstanding read request was granted an extra window update
-   bumped   : the configured window was raised (BDP) while such an extra grant was outstanding *)
+   bumped   : the configured window was raised (BDP) while such an extra grant was outstanding
+   sshrunk  : a BDP update LOWERED the stream window below the configured one (finding clause 10)
+   cdead    : updateFlowControl emitted a connection WINDOW_UPDATE with an illegal increment
+              (0 or > 2^31-1, finding clause 9): the framer refuses it, loopy exits and the
+              connection is closed, so nothing is claimed afterwards *)
 Record led := mkled { adv : Z; rcvd : Z; cadv : Z; crcvd : Z; lim : Z; clim : Z;
-                      deliv : Z; readb : Z; want : Z; ldead : bool; adjusted : bool; bumped : bool }.
+                      deliv : Z; readb : Z; want : Z; ldead : bool; adjusted : bool; bumped : bool;
+                      sshrunk : bool; cdead : bool }.
 
 Definition cfg_ok (cfg : word) : bool :=
   match cfg with
@@ -160,8 +165,8 @@ Definition cfg_ok (cfg : word) : bool :=
 
 Definition linit (cfg : word) : led :=
   match cfg with
-  | [l; cl] => mkled l 0 cl 0 l cl 0 0 0 false false false
-  | _ => mkled 0 0 0 0 0 0 0 0 0 true false false
+  | [l; cl] => mkled l 0 cl 0 l cl 0 0 0 false false false false false
+  | _ => mkled 0 0 0 0 0 0 0 0 0 true false false false false
   end.
 
 (* well-formedness of an operation in the current ledger state: frame sizes are frame sizes,
@@ -172,12 +177,24 @@ Definition opk_ok (L : led) (k : opk) : bool :=
   | OData size pad => (0 <=? pad) && (pad <=? size) && (size <? maxFrame)
   | OReq n => (want L =? 0) && (0 <=? n) && (n <? 2^32)
   | ORead k => (0 <=? k) && (k <=? want L) && (k <=? deliv L - readb L)
-  | ONew n => (lim L <=? n) && (clim L <=? n) && (n <=? bdpLimit)
+  | ONew n => (lim L <=? n) && (clim L <? n) && (n <=? bdpLimit)
   | OPing => true
   end.
 
 Definition op_ok (L : led) (op : word) : bool :=
   match decode_op op with Some k => opk_ok L k | None => false end.
+
+(* the same without the hypothesis that BDP estimates exceed the configured windows (the
+   estimator starts at 65535 whatever InitialWindowSize/InitialConnWindowSize say): this is the
+   gate for evaluating clauses on implementation traces; [opk_ok] is the hypothesis of the theorems *)
+Definition opk_pre (L : led) (k : opk) : bool :=
+  match k with
+  | ONew n => (1 <=? n) && (n <=? bdpLimit)
+  | _ => opk_ok L k
+  end.
+
+Definition op_pre (L : led) (op : word) : bool :=
+  match decode_op op with Some k => opk_pre L k | None => false end.
 
 Definition lstepk (L : led) (k : opk) (o : word) : option led :=
   match k, o with
@@ -185,27 +202,29 @@ Definition lstepk (L : led) (k : opk) (o : word) : option led :=
     let cadv' := cadv L + cwu in let crcvd' := crcvd L + size in
     if ldead L || (size =? 0) then
       Some (mkled (adv L) (rcvd L) cadv' crcvd' (lim L) (clim L) (deliv L) (readb L) (want L)
-                  (ldead L) (adjusted L) (bumped L))
+                  (ldead L) (adjusted L) (bumped L) (sshrunk L) (cdead L))
     else if err =? 0 then
       Some (mkled (adv L + swu) (rcvd L + size) cadv' crcvd' (lim L) (clim L)
-                  (deliv L + (size - pad)) (readb L) (want L) false (adjusted L) (bumped L))
+                  (deliv L + (size - pad)) (readb L) (want L) false (adjusted L) (bumped L) (sshrunk L) (cdead L))
     else
       Some (mkled (adv L) (rcvd L) cadv' crcvd' (lim L) (clim L) (deliv L) (readb L) (want L)
-                  true (adjusted L) (bumped L))
+                  true (adjusted L) (bumped L) (sshrunk L) (cdead L))
   | OReq n, wu :: _ =>
     Some (mkled (adv L + wu) (rcvd L) (cadv L) (crcvd L) (lim L) (clim L) (deliv L) (readb L) n
-                (ldead L) (0 <? wu) false)
+                (ldead L) (0 <? wu) false (sshrunk L) (cdead L))
   | ORead k, wu :: _ =>
     let w' := want L - k in
     Some (mkled (adv L + wu) (rcvd L) (cadv L) (crcvd L) (lim L) (clim L) (deliv L) (readb L + k) w'
-                (ldead L) (adjusted L && negb (w' =? 0)) (bumped L && negb (w' =? 0)))
-  | ONew n, cwu :: _ =>
+                (ldead L) (adjusted L && negb (w' =? 0)) (bumped L && negb (w' =? 0)) (sshrunk L) (cdead L))
+  | ONew n, cwu :: items :: _ =>
     Some (mkled (if ldead L then adv L else adv L + (n - lim L)) (rcvd L) (cadv L + cwu) (crcvd L)
                 (if ldead L then lim L else n) n (deliv L) (readb L) (want L)
-                (ldead L) (adjusted L) (bumped L || adjusted L))
+                (ldead L) (adjusted L) (bumped L || adjusted L)
+                (sshrunk L || (negb (ldead L) && (n <? lim L)))
+                (cdead L || negb ((items =? 0) || ((1 <=? cwu) && (cwu <=? max_i32)))))
   | OPing, cwu :: _ =>
     Some (mkled (adv L) (rcvd L) (cadv L + cwu) (crcvd L) (lim L) (clim L) (deliv L) (readb L) (want L)
-                (ldead L) (adjusted L) (bumped L))
+                (ldead L) (adjusted L) (bumped L) (sshrunk L) (cdead L))
   | _, _ => None
   end.
 
@@ -225,8 +244,14 @@ Definition cwin (L : led) : Z := cadv L - crcvd L.
    6  [statement deviation] ... "at least the configured window" (literal reading)
    7  connection window: <= 2^31-1, and always > 3/4 of the configured connection window
    8  after a read request of n bytes the window covers the rest of the message
-      (or is at the protocol maximum, less the batched < limit/4) *)
+      (or is at the protocol maximum, less the batched < limit/4)
+   9  [finding] every connection-level WINDOW_UPDATE increment emitted by updateFlowControl is
+      in [1, 2^31-1]; false when the BDP estimate n is <= the configured connection window
+      (uint32 underflow of n - limit, or 0); the connection is then torn down: nothing more is claimed
+   10 [finding] clauses 4 and 8 in states after a BDP update lowered the stream window below the
+      configured one (SETTINGS_INITIAL_WINDOW_SIZE decrease while pendingUpdate may exceed limit/4) *)
 Definition clauses_k (i : Z) (L : led) (k : opk) (o : word) (L' : led) : list (Z * Z * bool) :=
+  if cdead L' then [(9, i, false)] else
   let conn := [(7, i, (cwin L' <=? max_i32) && (3 * clim L' <? 4 * cwin L') && (cwin L' <=? clim L'))] in
   if ldead L then conn else
   (match k, o with
@@ -236,13 +261,13 @@ Definition clauses_k (i : Z) (L : led) (k : opk) (o : word) (L' : led) : list (Z
       (2, i, (err =? 0) || (adv L <? rcvd L + size))]
    | OReq n, _ =>
      let n' := if n >? max_i32 then max_i32 else n in
-     [(8, i, Z.min n' (max_i32 - lim L' / 4) - (deliv L' - readb L') <=? win L')]
+     [((if sshrunk L' then 10 else 8), i, Z.min n' (max_i32 - lim L' / 4) - (deliv L' - readb L') <=? win L')]
    | _, _ => []
    end) ++
   (if ldead L' then [] else
    [((if bumped L' then 5 else 3), i, win L' <=? max_i32)] ++
    (if deliv L' =? readb L' then
-      [(4, i, (0 <? win L') && (3 * lim L' <? 4 * win L')); (6, i, lim L' <=? win L')]
+      [((if sshrunk L' then 10 else 4), i, (0 <? win L') && (3 * lim L' <? 4 * win L')); (6, i, lim L' <=? win L')]
     else [])) ++ conn.
 
 Definition clauses_at (i : Z) (L : led) (op o : word) (L' : led) : list (Z * Z * bool) :=
@@ -252,21 +277,21 @@ Fixpoint clauses_from (i : Z) (L : led) (ops obs : list word) : list (Z * Z * bo
   match ops, obs with
   | [], [] => []
   | op :: r, o :: r' =>
-    if op_ok L op then
+    if op_pre L op && negb (cdead L) then
       match lstep L op o with
       | Some L' => clauses_at i L op o L' ++ clauses_from (i + 1) L' r r'
       | None => [(0, i, false)]
       end
-    else []   (* outside the property's hypotheses: nothing more is claimed *)
+    else []   (* outside the property's hypotheses, or connection torn down: nothing more is claimed *)
   | _, _ => [(0, i, false)]
   end.
 
 Definition clauses (cfg : word) (ops obs : list word) : list (Z * Z * bool) :=
   if cfg_ok cfg then clauses_from 0 (linit cfg) ops obs else [].
 
-(* clauses 5 and 6 are false on the faithful model (see C04_*_refuted); the others hold *)
+(* clauses 5, 6, 9, 10 are false on the faithful model (see C04_*_refuted); the others hold *)
 Definition proved_clause (c : Z * Z * bool) : bool :=
-  match c with (id, _, ok) => ok || (id =? 5) || (id =? 6) end.
+  match c with (id, _, ok) => ok || (id =? 5) || (id =? 6) || (id =? 9) || (id =? 10) end.
 
 Definition holds_b (cfg : word) (ops obs : list word) : bool :=
   forallb proved_clause (clauses cfg ops obs).
@@ -302,11 +327,29 @@ Definition fin (cfg : word) (ops : list word) : option (st * led) :=
     match init cfg with Some s => fin_from s (linit cfg) ops | None => None end
   else None.
 
-(* Codec.decide, except that the two registered finding clauses (5, 6) are reported only
+(* Codec.decide, except that the registered finding clauses (5, 6, 9, 10) are reported only
    after everything else (all other clauses, then correspondence) has been checked, so that a
    case which exhibits a known finding is still fully checked. *)
 Definition is_finding (c : Z * Z * bool) : bool :=
-  match c with (id, _, _) => (id =? 5) || (id =? 6) end.
+  match c with (id, _, _) => (id =? 5) || (id =? 6) || (id =? 9) || (id =? 10) end.
+
+(* reachable states without the hypothesis that BDP estimates exceed the configured windows *)
+Fixpoint finp_from (s : st) (L : led) (ops : list word) : option (st * led) :=
+  match ops with
+  | [] => Some (s, L)
+  | op :: r =>
+    if op_pre L op && negb (cdead L) then
+      match step s op with
+      | Some (o, s') => match lstep L op o with Some L' => finp_from s' L' r | None => None end
+      | None => None
+      end
+    else None
+  end.
+
+Definition finp (cfg : word) (ops : list word) : option (st * led) :=
+  if cfg_ok cfg then
+    match init cfg with Some s => finp_from s (linit cfg) ops | None => None end
+  else None.
 
 Definition check_case (c : case) : verdict :=
   let cl := clauses (c_cfg c) (c_ops c) (c_obs c) in
